@@ -482,7 +482,21 @@ pub fn exec(ctx: &mut Ctx, op: &str, p: &mut Toks) -> String {
             let b = p.tensor();
             let s = p.flt();
             match (&a.data, &b.data) {
-                (Data::Triple(x), Data::Triple(y)) => guarded(|| r3(&tensor::hadamard3d(x, y, s))),
+                (Data::Triple(x), Data::Triple(y)) => {
+                    // C15 oracle: the scaled Hadamard product of two 3-D nests of the same extents is element-wise, same extents
+                    let dims = |v: &Vec<Vec<Vec<f32>>>| -> Vec<Vec<usize>> { v.iter().map(|m| m.iter().map(|r| r.len()).collect()).collect() };
+                    if dims(x) == dims(y) && !x.is_empty() {
+                        let res = try_run(|| tensor::hadamard3d(x, y, s));
+                        let expect: Vec<Vec<Vec<f32>>> = x.iter().zip(y.iter()).map(|(m, n)| m.iter().zip(n.iter()).map(|(r, t)| r.iter().zip(t.iter()).map(|(e, f)| e * f * s).collect()).collect()).collect();
+                        let ok = match &res {
+                            Some(r) => dims(r) == dims(x) && r.iter().flatten().flatten().zip(expect.iter().flatten().flatten()).all(|(a, b)| a.to_bits() == b.to_bits() || (a.is_nan() && b.is_nan())),
+                            None => false,
+                        };
+                        ctx.oracle(ok, "hadamard3d-elementwise", "the scaled Hadamard product must be the element-wise IEEE result with the extents unchanged",
+                            format!("had3d {} | {} | {:e}", qt(&a), qt(&b), s), res.as_ref().map(|r| r3(r)).unwrap_or("panic".into()), r3(&expect));
+                    }
+                    guarded(|| r3(&tensor::hadamard3d(x, y, s)))
+                }
                 _ => "bad had3d".into(),
             }
         }
